@@ -658,13 +658,15 @@ class DynamicBayesianNetwork(DAG):
                             new_cpd = TabularCPD(
                                 temp_var,
                                 cpd.variable_card,
-                                np.reshape(initial_cpd.values, (2, -1)),
+                                np.reshape(
+                                    initial_cpd.values, (cpd.variable_card, -1)
+                                ),
                             )
                         else:
                             new_cpd = TabularCPD(
                                 temp_var,
                                 cpd.variable_card,
-                                np.reshape(cpd.values, (2, -1)),
+                                np.reshape(cpd.values, (cpd.variable_card, -1)),
                             )
                     self.add_cpds(new_cpd)
             self.check_model()
